@@ -52,15 +52,17 @@ def oracleMeanCI {F : Type} [FloatLike F] (conf : Confidence Float) (xs : List F
   | none => ([], 1)
   | some e =>
     if e.n < 2 || c.isNaN then ([], 1) else
-    let kappa := e.kappa
-    -- the property's conditioning domain
-    if !(kappa * FloatLike.u F ≤ Float.scaleB 1.0 (-10)) then ([], 1) else
     let mean := e.mean
     let sd := e.variance.sqrt
-    let hw := c * sd / (Float.ofNat e.n).sqrt
+    let nn := Float.ofNat e.n
+    let hw := c * sd / nn.sqrt
     let lo := mean - hw
     let hi := mean + hw
-    let tol := 16.0 * FloatLike.u F * (e.meanAbs + absF hw * (1.0 + kappa)) + Float.scaleB 1.0 (-1060)
+    -- the one-pass variance (Σx² − x̄Σx)/(n−1) carries an absolute error of a few u·Σx²/(n−1)
+    -- (its conditioning); the standard deviation inherits min(ε/s, √ε)
+    let epsV := 16.0 * FloatLike.u F * e.sumSqF / (nn - 1.0)
+    let sdTol := if sd > 0.0 && epsV / sd < epsV.sqrt then epsV / sd else epsV.sqrt
+    let tol := 16.0 * FloatLike.u F * (e.meanAbs + absF hw) + absF c * sdTol / nn.sqrt + Float.scaleB 1.0 (-1060)
     let complaints := impl.foldl (fun (acc : List String × Nat) (g : List String) =>
       let (cs, idx) := acc
       let bad (msg : String) := (cs ++ [s!"style{idx}:{msg}"], idx + 1)
@@ -115,6 +117,7 @@ def wstats {F : Type} [FloatLike F] (count : Nat) (mean sem : F) : List Tok :=
 def approxRel (a b rel : Float) : Bool :=
   if a.isNaN || b.isNaN then a.isNaN && b.isNaN
   else if a == b then true
+  else if !a.isFinite || !b.isFinite then false
   else decide (absF (a - b) ≤ rel * fmax (absF a) (absF b))
 
 /-- compare two intervals of the implementation bound-wise through `f` with a relative tolerance -/
